@@ -267,7 +267,7 @@ class HybridClass(metaclass=MetaHybridClass):
                 dressed_kwargs[kk] = vv
                 xo_kwargs[self._inverse_rename.get(kk, kk)] = vv._xobject
             else:
-                xo_kwargs[self._inverse_rename.get(kk, kk)] = vv
+                xo_kwargs.update(self._to_xo_names({kk: vv}))
 
         self._xobject = self._XoStruct(**xo_kwargs)
 
@@ -278,6 +278,21 @@ class HybridClass(metaclass=MetaHybridClass):
         # dress what can be dressed
         # (for example in case object is initialized from dict)
         self._reinit_from_xobject(_xobject=self._xobject)
+
+    @classmethod
+    def _to_xo_names(cls, dct):
+        """Python field names -> xo field names, also inside the dictionaries
+        given for nested hybrid fields (which have their own renaming)"""
+        out = {}
+        for kk, vv in dct.items():
+            nn = cls._inverse_rename.get(kk, kk)
+            if isinstance(vv, dict) and nn in cls._xo_fnames:
+                ftype = getattr(cls._XoStruct, nn).ftype
+                ftype = getattr(ftype, "_reftype", ftype)
+                if hasattr(ftype, "_DressingClass"):
+                    vv = ftype._DressingClass._to_xo_names(vv)
+            out[nn] = vv
+        return out
 
     def __init__(self, _xobject=None, **kwargs):
         self.xoinitialize(_xobject=_xobject, **kwargs)
